@@ -31,6 +31,10 @@ KindActs(k) ==
     [] k = "ctlDet"   -> <<ACtlEngine("DetectionOnly")>>
     [] k = "ctlOn"    -> <<ACtlEngine("On")>>
     [] k = "ctlOff"   -> <<ACtlEngine("Off")>>
+    [] k = "ctlReqOn"   -> <<ACtlReqAccess("On")>>
+    [] k = "ctlReqOff"  -> <<ACtlReqAccess("Off")>>
+    [] k = "ctlRespOn"  -> <<ACtlRespAccess("On")>>
+    [] k = "ctlRespOff" -> <<ACtlRespAccess("Off")>>
     [] OTHER          -> << >>
 \* marker of every phase, plus (optionally) one special rule right after the marker of phase d.p,
 \* plus (optionally) a second deny in phase d.q
